@@ -21,6 +21,7 @@ CONSTANTS
   ReapNs <- MCReapNs
   ReapBs <- MCReapBs
   ReapGs <- MCReapGs
+  TightDeltas <- MCNoTight
   MaxDepth = 0
   Weak_NoDupCheckOnInsert = FALSE
   Weak_ReapOffByOne = FALSE
@@ -28,6 +29,7 @@ CONSTANTS
   Weak_EvictWithoutBytes = FALSE
   Weak_CacheNotUpdatedOnCommit = FALSE
   Weak_RecheckKeepsRejected = TRUE
+  Weak_VarintBoundaryOffByOne = FALSE
   Weak_NonAtomicAdmission = FALSE
 INIT Init
 NEXT NextCore
